@@ -70,14 +70,15 @@ Print Assumptions C10_exact_prop_dense.
 Print Assumptions C10_phase_offset_cancels.
 
 (* what the translator read from the source: both evolve_exact variants call
-   exact_propagator(model, -1j*evolve_dt, space, -offset), apply it, and multiply the RESULT's prefactor *)
+   exact_propagator(model, -1j*evolve_dt, space, -offset), apply it, and multiply the RESULT's prefactor;
+   ThermalProp.evolve_exact applies the propagator TO the density operator (physical index: U rho, not rho U) and normalises *)
 Definition phase_on_result (c : ee_code) : bool := match ee_target c with OnResult => true | OnInput => false end.
 
 Theorem C10_evolve_exact_source :
   phase_on_result ee_mps = true /\ phase_on_result ee_mpdm = true
   /\ ee_x ee_mps = XMiDt /\ ee_x ee_mpdm = XMiDt /\ ee_phase ee_mps = PhaseMiOffDt /\ ee_phase ee_mpdm = PhaseMiOffDt
   /\ ee_order ee_mps = PropOnState /\ ee_order ee_mpdm = StateOnProp
-  /\ ee_x ee_thermal = XImagPart /\ ee_phase ee_thermal = Normalise.
+  /\ ee_x ee_thermal = XImagPart /\ ee_phase ee_thermal = Normalise /\ ee_order ee_thermal = PropOnState.
 Proof. repeat split; reflexivity. Qed.
 Print Assumptions C10_evolve_exact_source.
 
